@@ -24,7 +24,10 @@ env.pop('GEOPHIRES_X_VERIF', None)
 
 
 def demo():
-    p = subprocess.run(['/venv/bin/python', os.path.join(dst, 'demo.py')], cwd=wt, env=env, capture_output=True, text=True, timeout=1800)
+    # run from <worktree>/SEED/demo.py, where the agent wrote it (demos may locate files relative to themselves)
+    os.makedirs(os.path.join(wt, 'SEED'), exist_ok=True)
+    shutil.copy(os.path.join(dst, 'demo.py'), os.path.join(wt, 'SEED', 'demo.py'))
+    p = subprocess.run(['/venv/bin/python', os.path.join(wt, 'SEED', 'demo.py')], cwd=wt, env=env, capture_output=True, text=True, timeout=1800)
     return p.returncode, (p.stdout + p.stderr)[-600:]
 
 
